@@ -1136,6 +1136,20 @@ impl futures::io::AsyncSeek for AChunk {
 pub fn c12() -> Result<u64, String> {
     let mut r = Rng::new(seed() ^ 12);
     let mut n = 0u64;
+    {   // a metadata section that is present but holds no JSON at all (the codec stream of the empty string, or one blank): both readers must agree
+        let mut tiles: Model = BTreeMap::new(); for i in 0..3u64 { tiles.insert(i, vec![i as u8 + 1; 5]); }
+        for ic in 1u8..=4 { for payload in [&b""[..], &b" "[..], &b"{}"[..]] { n += 1;
+            let mut data = Vec::new(); let mut es = Vec::new(); for (id, v) in &tiles { es.push(E { id: *id, off: data.len() as u64, len: v.len() as u32, run: 1 }); data.extend(v); }
+            let root = compress(ic, &dir_enc(&es)); let meta = compress(ic, payload); if meta.is_empty() { continue; }
+            let roff = 127u64; let moff = roff + root.len() as u64; let doff = moff + meta.len() as u64;
+            let h = Hdr { root_off: roff, root_len: root.len() as u64, meta_off: moff, meta_len: meta.len() as u64, leaf_off: doff, leaf_len: 0, data_off: doff, data_len: data.len() as u64,
+                n_addr: tiles.len() as u64, n_entries: es.len() as u64, n_contents: es.len() as u64, clustered: 1, ic, tc: 1, tt: 1, min_zoom: 0, max_zoom: 3, min_lon: 0, min_lat: 0, max_lon: 0, max_lat: 0, center_zoom: 0, c_lon: 0, c_lat: 0 };
+            let mut b = build_header(&h); b.extend(&root); b.extend(&meta); b.extend(&data);
+            let rs = PMTiles::from_bytes(b.clone()).map(|p| (p.num_tiles(), p.meta_data.len())).map_err(|e| e.kind());
+            let ra = block_on(PMTiles::from_async_reader(futures::io::Cursor::new(b.clone()))).map(|p| (p.num_tiles(), p.meta_data.len())).map_err(|e| e.kind());
+            if rs.is_ok() != ra.is_ok() || (rs.is_ok() && rs != ra) { return Err(format!("archive whose metadata section is the compression (code {ic}) of {payload:?}: sync open returns {rs:?}, async open returns {ra:?}")); }
+        } }
+    }
     for round in 0..40 { let c = COMPS[round % 4]; let tiles = if round == 39 { big_tiles(6000) } else { gen_tiles(&mut r, 1 + round % 11, 3) }; n += 1;
         let (sb, _) = write_at(build(&tiles, c, &Default::default()), 0).map_err(|e| e.to_string())?;
         let mut apm = PMTiles::new_async(TileType::Png, Compression::None); apm.internal_compression = c; for (k, v) in &tiles { apm.add_tile(*k, v.clone()).unwrap(); }
